@@ -142,6 +142,7 @@ def _compute_integral_ir(
     argument_shape: tuple[int, ...],
     visualise: bool,
     p: dict,
+    shares_piecewise_scope: bool = False,
 ) -> tuple[
     dict[str, npt.NDArray[np.float64]],
     dict[str, _table_types],
@@ -272,7 +273,12 @@ def _compute_integral_ir(
                 F.nodes[i]["tr"] = tr
 
     # Attach 'status' to each node: 'inactive', 'piecewise' or 'varying'
-    analyse_dependencies(F, mt_table_reference)
+    # With a single quadrature point every table is trivially constant over the
+    # points, but its values still depend on that point. If other quadrature rules
+    # are part of the same integral, such values must not be treated as piecewise:
+    # piecewise values are generated once and shared between all rules.
+    single_point_shared = shares_piecewise_scope and quadrature_rule.weights.size == 1
+    analyse_dependencies(F, mt_table_reference, single_point_shared)
 
     # Output diagnostic graph as pdf
     if visualise:
@@ -437,6 +443,7 @@ def compute_integral_ir(
                 argument_shape,
                 visualise,
                 p,
+                shares_piecewise_scope=sum(len(r) for r in integrands.values()) > 1,
             )
 
             # Add tables and types for this quadrature rule to global tables dict
@@ -464,7 +471,7 @@ def compute_integral_ir(
     )
 
 
-def analyse_dependencies(F, mt_unique_table_reference):
+def analyse_dependencies(F, mt_unique_table_reference, point_dependent_piecewise=False):
     """Analyse dependencies.
 
     Sets 'status' of all nodes to either: 'inactive', 'piecewise' or 'varying'
@@ -500,6 +507,8 @@ def analyse_dependencies(F, mt_unique_table_reference):
             else:
                 if ttype not in ("fixed", "piecewise", "ones", "zeros"):
                     raise RuntimeError(f"Invalid ttype {ttype}.")
+                if point_dependent_piecewise:
+                    varying_indices.append(i)
 
         elif not is_cellwise_constant(v["expression"]):
             raise RuntimeError("Error " + str(tr))
